@@ -49,9 +49,12 @@ HashConfig(s) ==
       L  == IF d = 2 THEN Boxes2[bi] ELSE Boxes3[bi]
       sel == IF vi = 0 THEN [kind |-> "list", vecs |-> IF d = 2 THEN AllVecs2 ELSE SomeVecs3]
              ELSE [kind |-> "range", qn |-> 3 + (s % 4), qd |-> 2, opt |-> Opts[vi]]
-  IN  [ L |-> L, S |-> 2, M |-> M, types |-> HTypes(s, n, K),
-        frames |-> [f \in 1..nf |-> [i \in 1..n |-> [k \in 1..d |-> (Hash(s, f, i, k) % (2 * M)) - (M \div 2)]]],
-        sel |-> sel, id |-> s ]
+      ty == HTypes(s, n, K)
+      base == [ L |-> L, S |-> 2, M |-> M, types |-> ty,
+                frames |-> [f \in 1..nf |-> [i \in 1..n |-> [k \in 1..d |-> (Hash(s, f, i, k) % (2 * M)) - (M \div 2)]]],
+                sel |-> sel, id |-> s ]
+      \* two-frame members with an even species count: labels rotated by one particle in the second frame
+  IN  IF nf = 2 /\ K % 2 = 0 THEN base @@ [tys |-> <<ty, [i \in 1..n |-> ty[(i % n) + 1]]>>] ELSE base
 
 Tr == IF Mode = "trace" THEN ndJsonDeserialize(IOEnv.TRACE_FILE) ELSE << >>
 
@@ -78,7 +81,7 @@ Checked == LET vs == Vectors(c) IN IF Mode = "grid" THEN Range(vs) ELSE {vs[i] :
 InvSumRule    == IsConfig => \A v \in Checked : SumRule(c, v) /\ CorrMass(c, v)
 InvDiagonal   == IsConfig => \A v \in Checked : DiagonalNonNegative(c, v)
 InvGrouping   == IsConfig => GroupingByNorm(c, Vectors(c))
-InvTypes      == IsConfig => Species(c) = 1..NSpecies(c)
+InvTypes      == IsConfig => Species(c) = 1..NSpecies(c) /\ PerFrameOK(c)
 
 Emit == Gen =>
   IF IsConfig THEN PrintT(ToJson(Case(c) @@ (IF "id" \in DOMAIN c THEN [id |-> c.id] ELSE [id |-> 0 - 1])))
